@@ -628,6 +628,9 @@ func (n *LocalNode) Sess(lSeid uint64) (*Sess, error) {
 	if lSeid == 0 {
 		return nil, errors.New("Sess: invalid lSeid:0")
 	}
+	if lSeid > uint64(len(n.sess)) {
+		return nil, errors.Errorf("Sess: sess not found (lSeid:%#x)", lSeid)
+	}
 	i := int(lSeid) - 1
 	if i >= len(n.sess) {
 		return nil, errors.Errorf("Sess: sess not found (lSeid:%#x)", lSeid)
@@ -674,6 +677,9 @@ func (n *LocalNode) NewSess(rSeid uint64, qlen int) *Sess {
 func (n *LocalNode) DeleteSess(lSeid uint64) ([]report.USAReport, error) {
 	if lSeid == 0 {
 		return nil, errors.New("DeleteSess: invalid lSeid:0")
+	}
+	if lSeid > uint64(len(n.sess)) {
+		return nil, errors.Errorf("DeleteSess: sess not found (lSeid:%#x)", lSeid)
 	}
 	i := int(lSeid) - 1
 	if i >= len(n.sess) {
